@@ -314,7 +314,25 @@ class HistGen:
     # --- rejected / boundary operations ------------------------------------
     def op_rejected(self):
         m, r = self.m, self.r
-        k = r.below(6)
+        k = r.below(7)
+        if k == 6 and self.o["batch"]:
+            # a batch whose first entries are accepted and whose last entry is
+            # rejected: the accepted prefix stays applied
+            n = 1 + r.below(3)
+            es = []
+            for _ in range(n):
+                if m.last is None:
+                    term, idx = r.below(3), 0
+                else:
+                    term, idx = m.last[0], m.last[1] + 1
+                es.append(f"{term},{idx},{self.payload()}")
+                m.last = (term, idx)
+                m.entries.append((term, idx))
+            bad = r.choice([(m.last[0], m.last[1] + 2), (m.last[0], m.last[1]),
+                            (m.last[0] - 1, m.last[1] + 1) if m.last[0] > 0 else (m.last[0], m.last[1] + 3)])
+            es.append(f"{bad[0]},{bad[1]},{self.payload()}")
+            self.count("rej-append-partial-batch")
+            return "app " + " ".join(es)
         if k == 0 and m.vote is not None and m.vote > (0, 0):
             v = (m.vote[0], m.vote[1] - 1) if m.vote[1] > 0 else (m.vote[0] - 1, r.below(5))
             self.count("rej-vote")
